@@ -92,10 +92,18 @@ func (f *Dotimes) Call(s *slip.Scope, args slip.List, depth int) slip.Object {
 					}
 					return tr
 				case *GoTo:
-					for i++; i < len(args); i++ {
-						if args[i] == tr.Tag {
+					// The body is an implicit tagbody. A tag that is not in it
+					// belongs to an enclosing tagbody.
+					found := false
+					for j := 1; j < len(args); j++ {
+						if args[j] == tr.Tag {
+							i = j
+							found = true
 							break
 						}
+					}
+					if !found {
+						return tr
 					}
 				}
 			}
